@@ -113,7 +113,7 @@ def rule_table():
 
 
 def fix_applied():
-    return all(s in call_sites() for s in FIX_ONLY) and input_names_checked()
+    return all(s in call_sites() for s in FIX_ONLY) and input_names_checked() and not name_classes()[4]
 
 
 def input_names_checked():
@@ -133,9 +133,9 @@ def matchers():
 
 
 def name_classes():
-    """Character classes of VALID_NAME_RE from the compiled pattern: (pattern, forbidden prefix, start, cont)."""
+    """Character classes of VALID_NAME_RE from the compiled pattern: (pattern, forbidden prefix, start, cont, ends with `$`)."""
     import re._parser as sre
-    from re._constants import AT, AT_BEGINNING, AT_END, ASSERT_NOT, IN, LITERAL, RANGE, MAX_REPEAT, MAXREPEAT
+    from re._constants import AT, AT_BEGINNING, AT_END, AT_END_STRING, ASSERT_NOT, IN, LITERAL, RANGE, MAX_REPEAT, MAXREPEAT
     mod = {}
     exec(compile(ast.Module(body=[n for n in ast.parse(VALIDATION.read_text()).body
                                   if isinstance(n, ast.Assign) and getattr(n.targets[0], "id", "") == "VALID_NAME_RE"],
@@ -159,12 +159,12 @@ def name_classes():
         ok = (p[0] == (AT, AT_BEGINNING) and p[1][0] is ASSERT_NOT and p[1][1][0] == 1
               and all(k is LITERAL for k, _ in p[1][1][1]) and p[2][0] is IN and p[3][0] is MAX_REPEAT
               and p[3][1][0] == 0 and p[3][1][1] is MAXREPEAT and len(p[3][1][2]) == 1 and p[3][1][2][0][0] is IN
-              and p[4] == (AT, AT_END) and len(p) == 5)
+              and p[4] in ((AT, AT_END), (AT, AT_END_STRING)) and len(p) == 5)
     except Exception:
         ok = False
     if not ok:
         raise py2lean.Untranslatable("VALID_NAME_RE is not ^(?!lit)[class][class]*$ : %r" % pat.pattern)
-    return pat.pattern, [v for _, v in p[1][1][1]], cls(p[2][1]), cls(p[3][1][2][0][1])
+    return pat.pattern, [v for _, v in p[1][1][1]], cls(p[2][1]), cls(p[3][1][2][0][1]), p[4] == (AT, AT_END)
 
 
 def lean_str(s):
@@ -183,7 +183,7 @@ def extract(ctx=None):
                      "/-- one unfolding of `Schema.is_subtype(type_, super_type)`; `isinstance(·, GraphQLAbstractType)`,",
                      "    `isinstance(·, ObjectType)` and `self.is_possible_type` are parameters -/",
                      step, "end PyGql.Generated.Subtype", ""])
-    pattern, forb, start, cont = name_classes()
+    pattern, forb, start, cont, dollar = name_classes()
 
     def pred(ranges):
         return " || ".join(("c == %d" % a) if a == b else ("(%d ≤ c && c ≤ %d)" % (a, b)) for a, b in ranges) or "false"
@@ -194,7 +194,9 @@ def extract(ctx=None):
           "/-- the negative look-ahead `(?!..)` -/",
           "def nameForbiddenPrefix : List Nat := [%s]" % ", ".join(map(str, forb)),
           "def nameStart (c : Nat) : Bool := %s" % pred(start),
-          "def nameCont (c : Nat) : Bool := %s" % pred(cont), "",
+          "def nameCont (c : Nat) : Bool := %s" % pred(cont),
+          "/-- the pattern ends with `$` (which also matches before one trailing newline) instead of `\\Z` -/",
+          "def nameDollarQuirk : Bool := %s" % ("true" if dollar else "false"), "",
           "/-- (rule id, format strings of its `add_error` call sites) -/",
           "def ruleFormats : List (String × List String) := ["]
     tl.append(",\n".join("  (%s, [%s])" % (lean_str(r), ", ".join(lean_str(f) for f in fs)) for r, fs in table.items()))
